@@ -52,17 +52,23 @@ fn big_region_encoder(region: usize, k: usize, m: usize, split: usize, drains: u
     ops.push(format!("feed_read {} 1 {} d10", region, run_token(0x00, 16)));
     let first = split.min(total - 10 - 1);
     ops.push(format!("feed {} gen:{}:7:0", method, first));
+    // (never `drain_all` between the feeds: with a region somebody asked to be 3-5 MiB large the footprint
+    // bound of the STREAMING regime - drain everything after every call - is not the arena's default one)
     match drains % 3 {
-        0 => ops.push("drain_all".into()),
+        0 => ops.push("drain_slices 100".into()),
         1 => ops.push("drain_bytes 5".into()),
         _ => {}
     }
     ops.push(format!("feed {} gen:{}:8:0", method, total - 10 - first));
     if drains % 2 == 0 {
-        ops.push("drain_all".into());
+        ops.push("drain_slices 100".into());
     }
     ops.push("finish".into());
-    ops.push("drain_bytes 70000".into());
+    if drains % 2 == 1 {
+        ops.push("drain_bytes 70000".into());
+    }
+    // more than 2^20 bytes out of ONE slice
+    ops.push("drain_bytes 1048600".into());
     ops.push("drain_all".into());
     ops
 }
@@ -133,6 +139,10 @@ fn split_decoder(len: usize, cuts: &[usize], method: &str) -> Vec<String> {
 /// `n` small pieces: every call leaves its own slice (anchored input) or merges (copy).
 fn many_pieces(n: usize, method: &str, len: usize, enc: bool) -> Vec<String> {
     let mut ops: Vec<String> = vec!["terse".into()];
+    if enc && n > 1200 && (method == "a" || method == "f") {
+        // the codec model over the list heap needs half an hour for 4100 anchored pieces; harness only
+        ops.push("quiet".into());
+    }
     if enc {
         ops.push("enc_new prod".into());
         ops.push(format!("rep {} feed {} {}", n, method, run_token(0x41, len)));
